@@ -21,17 +21,18 @@ def gamma (e : Endian) (n : Nat) : List Bool :=
 def delta (e : Endian) (n : Nat) : List Bool :=
   gamma e (n + 1).log2 ++ fieldBits e (n + 1) (n + 1).log2
 
-/-- ⌈log₂ u⌉ -/
-def clog2 (u : Nat) : Nat := if u ≤ 1 then 0 else (u - 1).log2 + 1
-
-/-- Minimal binary code of `x < u`: with `s = ⌈log₂ u⌉`, if `x < 2^s − u` then `x` in `s−1`
-    bits, otherwise `x − u + 2^s` in `s` bits (prefix of `s−1` bits, then the last bit). -/
+/-- Minimal binary code of `x < u` (documented with `s = ⌈log₂ u⌉`: if `x < 2^s − u` then `x` in
+    `s−1` bits, otherwise `x − u + 2^s` in `s` bits).  Stated here with `l = ⌊log₂ u⌋`, which is the
+    same code (for `u` a power of two `2^{l+1} − u = u`, so every `x` takes the first branch and is
+    written in `l = s` bits; otherwise `l = s − 1`) and makes the documented little-endian layout
+    explicit: the decoder reads `l` bits and then decides whether to read one more, so a long
+    codeword is its `l`-bit prefix followed by the last bit. -/
 def minimalBinary (e : Endian) (x u : Nat) : List Bool :=
-  let s := clog2 u
-  if x < 2 ^ s - u then fieldBits e x (s - 1)
+  let l := u.log2
+  if x < 2 ^ (l + 1) - u then fieldBits e x l
   else
-    let y := x + 2 ^ s - u
-    fieldBits e (y / 2) (s - 1) ++ [y % 2 == 1]
+    let y := x + 2 ^ (l + 1) - u
+    fieldBits e (y / 2) l ++ [y % 2 == 1]
 
 /-- ζ_k(n): h = ⌊⌊log₂(n+1)⌋/k⌋ in unary, then the minimal binary code of n+1−2^{hk} with
     upper bound 2^{(h+1)k} − 2^{hk}. -/
@@ -104,6 +105,7 @@ def codeword (e : Endian) (code : String) (p v : Nat) : Option (List Bool) :=
   | "zeta3" => some (zeta e 3 v)
   | "zeta" => some (zeta e p v)
   | "zetaw" => some (zetaWrapped e p v)
+  | "zetaw3" => some (zetaWrapped e 3 v)
   | "omega" => some (omega e v)
   | "pi" => some (pi e p v)
   | "rice" => some (rice e p v)
